@@ -11,6 +11,7 @@ pub mod c08_diff;
 pub mod c10_history;
 pub mod c11_saveload;
 pub mod c15_untrusted;
+pub mod c18_codec;
 pub mod c20_sync;
 pub mod c23_bloom;
 pub mod c24_text;
@@ -44,6 +45,8 @@ pub fn registry() -> Vec<Box<dyn Check>> {
         Box::new(c15_untrusted::C15),
         Box::new(c15_untrusted::C16),
         Box::new(c15_untrusted::C17),
+        Box::new(c18_codec::C18),
+        Box::new(c18_codec::C19),
         Box::new(c20_sync::C20),
         Box::new(c20_sync::C21),
         Box::new(c20_sync::C22),
